@@ -30,6 +30,7 @@ pub fn mk_callers(p: &Value) -> Arc<Mk> {
             if static_mode {
                 // after this, hot_reload is documented to have no effect -- it must still return
                 cache.enhance_hot_reloading();
+                ds::log("static-mode".into());
             }
             let mut hs = vec![];
             for i in 0..n {
@@ -65,15 +66,31 @@ pub fn mk_callers(p: &Value) -> Arc<Mk> {
     })
 }
 
-/// "released by its own answer": the call that issued the k-th request (FIFO channel) may only
-/// return after the reloader has published at least k+1 answers.
+/// "released by its own answer", stated without reference to how answers are published: the call
+/// that sent the m-th message on the request channel (FIFO) may return only after the reloader has
+/// *taken* that message, and -- unless the cache is in `'static` mode, where the reloader works on its
+/// own -- after the last piece of work (source read, write-lock of an entry) the reloader does before
+/// it turns to its channels again.  Which mutex, condition variable or flag carries the answer is the
+/// implementation's business (an earlier version of this oracle counted `notify_all` calls and
+/// raised a false alarm on a mailbox implementation that notifies after releasing the mutex).
 pub fn judge_callers(r: &ds::RunResult) -> Option<(String, String)> {
-    let mut req_pos: Vec<(String, usize)> = vec![]; // (caller name, index in ops) in order
-    let mut notif_pos: Vec<usize> = vec![];
+    // the request channel is the one the callers send on
+    let ch = r.ops.iter().find_map(|(name, op)| match op {
+        ds::Op::Send(c) | ds::Op::SendBounded(c) if name.starts_with("caller") => Some(*c),
+        _ => None,
+    })?;
+    let is_static = r.log.iter().any(|l| l == "static-mode");
+    // replay the channel: position of every send, and of the receive that took it
+    let mut sends: Vec<(String, usize)> = vec![];
+    let mut taken_at: Vec<usize> = vec![];
     for (i, (name, op)) in r.ops.iter().enumerate() {
         match op {
-            ds::Op::Send(_) if name.starts_with("caller") => req_pos.push((name.clone(), i)),
-            ds::Op::CondNotifyAll(_) if name == "reloader" => notif_pos.push(i),
+            ds::Op::Send(c) | ds::Op::SendBounded(c) if *c == ch => sends.push((name.clone(), i)),
+            ds::Op::TryRecv(c) | ds::Op::Recv(c) if *c == ch && name == "reloader" => {
+                if taken_at.len() < sends.len() {
+                    taken_at.push(i);
+                }
+            }
             _ => {}
         }
     }
@@ -83,22 +100,31 @@ pub fn judge_callers(r: &ds::RunResult) -> Option<(String, String)> {
             let who = it.next()?;
             let call: usize = it.next()?.strip_prefix("call")?.parse().ok()?;
             let pos: usize = it.next()?.strip_prefix("ops=")?.parse().ok()?;
-            // global index of this caller's `call`-th request
-            let mut seen = 0;
-            let mut k = None;
-            for (gi, (nm, _)) in req_pos.iter().enumerate() {
-                if nm == who {
-                    if seen == call {
-                        k = Some(gi);
-                        break;
-                    }
-                    seen += 1;
+            // global index, among all messages on the channel, of this caller's `call`-th request
+            let m = sends.iter().enumerate().filter(|(_, (nm, _))| nm == who).nth(call).map(|(gi, _)| gi)?;
+            let taken = taken_at.get(m).copied();
+            if taken.map(|t| t >= pos).unwrap_or(true) {
+                return Some(("early-release".into(), format!("{who} call {call} (message #{m} on the request channel) returned before the reloader had taken its request")));
+            }
+            if is_static {
+                continue;
+            }
+            let t = taken.unwrap();
+            let mut last_work = None;
+            for (i, (name, op)) in r.ops.iter().enumerate().skip(t + 1) {
+                if name != "reloader" {
+                    continue;
+                }
+                match op {
+                    ds::Op::TryRecv(_) | ds::Op::Recv(_) | ds::Op::SelectReady(_) => break,
+                    ds::Op::Yield("io") | ds::Op::RwWrite(_) => last_work = Some(i),
+                    _ => {}
                 }
             }
-            let k = k?;
-            let answers_before = notif_pos.iter().filter(|p| **p < pos).count();
-            if answers_before < k + 1 {
-                return Some(("early-release".into(), format!("{who} call {call} (request #{k}) returned after only {answers_before} answers were published")));
+            if let Some(w) = last_work {
+                if w >= pos {
+                    return Some(("early-release".into(), format!("{who} call {call} returned while the reloader was still working on its request (operation #{w} of the log, the call returned at #{pos})")));
+                }
             }
         }
     }
